@@ -23,6 +23,7 @@ import (
 	"github.com/ansible/receptor/pkg/netceptor"
 	"github.com/ansible/receptor/pkg/randstr"
 	"github.com/ansible/receptor/pkg/utils"
+	"github.com/ansible/receptor/pkg/verifhook"
 	"github.com/golang-jwt/jwt/v4"
 )
 
@@ -256,6 +257,10 @@ func (w *Workceptor) AllocateUnit(workTypeName string, params map[string]string)
 	if err != nil {
 		return nil, err
 	}
+	if verifhook.On {
+		verifhook.Emit(w.nc.NodeID(), "wu_mkdir", "id", ident, "type", workTypeName)
+	}
+	verifhook.CrashPoint("alloc_after_mkdir")
 	worker := wt.newWorkerFunc(nil, w, ident, workTypeName)
 	err = worker.SetFromParams(params)
 	if err == nil {
@@ -264,6 +269,10 @@ func (w *Workceptor) AllocateUnit(workTypeName string, params map[string]string)
 	if err != nil {
 		return nil, err
 	}
+	if verifhook.On {
+		verifhook.Emit(w.nc.NodeID(), "wu_alloc", "id", ident, "type", workTypeName)
+	}
+	verifhook.CrashPoint("alloc_after_save")
 	w.activeUnits[ident] = worker
 
 	return worker, nil
@@ -338,6 +347,10 @@ func (w *Workceptor) scanForUnit(unitID string) {
 		statusFilename := path.Join(unitdir, "status")
 		sfd := &StatusFileData{}
 		_ = sfd.Load(statusFilename)
+		if verifhook.On {
+			verifhook.Emit(w.nc.NodeID(), "wu_scan", "id", ident, "type", sfd.WorkType, "state", sfd.State, "size", sfd.StdoutSize)
+		}
+		verifhook.CrashPoint("scan_after_peek")
 		w.workTypesLock.RLock()
 		wt, ok := w.workTypes[sfd.WorkType]
 		w.workTypesLock.RUnlock()
@@ -353,11 +366,18 @@ func (w *Workceptor) scanForUnit(unitID string) {
 			return
 		}
 		err := worker.Load()
+		if verifhook.On {
+			verifhook.Emit(w.nc.NodeID(), "wu_scan_load", "id", ident, "ok", err == nil)
+		}
 		if err != nil {
 			w.nc.GetLogger().Warning("Failed to restart worker %s due to read error: %s", unitdir, err)
 			worker.UpdateBasicStatus(WorkStateFailed, fmt.Sprintf("Failed to restart: %s", err), stdoutSize(unitdir))
 		}
 		err = worker.Restart()
+		if verifhook.On {
+			verifhook.Emit(w.nc.NodeID(), "wu_scan_restart", "id", ident, "ok", err == nil || IsPending(err))
+		}
+		verifhook.CrashPoint("scan_after_restart")
 		if err != nil && !IsPending(err) {
 			w.nc.GetLogger().Warning("Failed to restart worker %s: %s", unitdir, err)
 			worker.UpdateBasicStatus(WorkStateFailed, fmt.Sprintf("Failed to restart: %s", err), stdoutSize(unitdir))
@@ -365,6 +385,9 @@ func (w *Workceptor) scanForUnit(unitID string) {
 		w.activeUnitsLock.Lock()
 		defer w.activeUnitsLock.Unlock()
 		w.activeUnits[ident] = worker
+		if verifhook.On {
+			verifhook.Emit(w.nc.NodeID(), "wu_scan_done", "id", ident, "type", worker.Status().WorkType, "state", worker.Status().State)
+		}
 	}
 }
 
